@@ -96,12 +96,33 @@ class Part(object):
             self.notes[key] = self.notes.get(key, 0) + amount
 
 
+def raised_inside_code_under_test(error):
+    """Was the exception raised by a frame of the tree under test (and merely not anticipated by the harness)?"""
+    from mc import repo
+
+    tb = error.__traceback__
+    innermost = None
+    while tb is not None:
+        innermost = tb.tb_frame.f_code.co_filename
+        tb = tb.tb_next
+    return innermost is not None and os.path.realpath(innermost).startswith(repo.REPO + os.sep)
+
+
 def _call(payload):
     module_name, func_name, item = payload
     module = importlib.import_module(module_name)
     try:
         return getattr(module, func_name)(item)
-    except Exception:
+    except Exception as error:
+        if raised_inside_code_under_test(error):
+            # the code under test failed in a way no judge anticipated (never happens on a tree where the properties
+            # hold): report it as a violation with the work item as replayable case instead of giving up
+            part = Part()
+            part.evaluations += 1
+            where = traceback.extract_tb(error.__traceback__)[-1]
+            part.fail("unanticipated-%s-from-%s:%s" % (type(error).__name__, os.path.basename(where.filename), where.name),
+                      {"__work_item__": jsonable(item), "module": module_name, "function": func_name}, "no exception of this kind", repr(error)[:400])
+            return part
         raise HarnessError("worker %s.%s failed on %r\n%s" % (module_name, func_name, item, traceback.format_exc()))
 
 
@@ -219,7 +240,18 @@ def run_replay(module, pid, path, as_json):
     with open(path, encoding="utf-8") as replay_file:
         body = json.load(replay_file)
     part = Part()
-    module.judge(body["case"], part)
+    case = body["case"]
+    if isinstance(case, dict) and "__work_item__" in case:
+        # a whole work item that made the code under test fail unexpectedly: run it again the same way
+        part = _call((case["module"], case["function"], _tuples(case["__work_item__"])))
+    else:
+        try:
+            module.judge(case, part)
+        except Exception as error:
+            if not raised_inside_code_under_test(error):
+                raise
+            where = traceback.extract_tb(error.__traceback__)[-1]
+            part.fail("unanticipated-%s-from-%s:%s" % (type(error).__name__, os.path.basename(where.filename), where.name), case, "no exception of this kind", repr(error)[:400])
     sigs = sorted(part.failures)
     reproduced = body["sig"] in part.failures
     if as_json:
@@ -234,6 +266,15 @@ def run_replay(module, pid, path, as_json):
         else:
             print("not reproduced (recorded sig %s, now %s)" % (body["sig"], sigs))
     return 1 if reproduced else 0
+
+
+def _tuples(value):
+    """JSON turned the tuples of a work item into lists: most work functions unpack sequences, a few need tuples."""
+    if isinstance(value, list):
+        return tuple(_tuples(v) for v in value)
+    if isinstance(value, dict):
+        return {k: _tuples(v) for k, v in value.items()}
+    return value
 
 
 # ---- finishing a run -----------------------------------------------------------------
